@@ -51,7 +51,10 @@ CLASSES = {
     "OpenDocumentImage": ("image_index", "unit_name"),
     "EpubImage": ("image_index", "unit_index"),
     "PdfImage": ("index", "unit_name"),
+    "RtfImage": ("image_index", "page_number"),     # stores the KIND of the picture (\\pngblip, \\jpegblip ...), not a content type; sizes are twips
 }
+KIND_TABLE = {"png": "image/png", "jpeg": "image/jpeg", "jpg": "image/jpeg"}       # raster kinds of the property -> the matching content type
+LOWER = z3.Function("str.lower", S, S)
 METHODS = ("get_metadata", "get_content_type", "get_bytes")
 LABELS = {
     "get_metadata": ("image-number-is-the-stored-number", "content-type-is-the-stored-one", "unit-is-the-stored-unit",
@@ -112,6 +115,12 @@ class AccessExecutor(C14Executor):
     def get_attr(self, st, base, attr, node):
         if isinstance(base, VExt) and base.sort == STREAM:
             return [(st, VFunc("bound", base, attr))]
+        if isinstance(base, VExt) and base.sort in CLASSES:
+            cn = self.class_module(base.sort).classes.get(base.sort)
+            for b in (cn.body if cn is not None else ()):       # a class-level constant table (typing.ClassVar) read through the instance
+                if isinstance(b, ast.AnnAssign) and isinstance(b.target, ast.Name) and b.target.id == attr and "ClassVar" in ast.unparse(b.annotation) \
+                        and b.value is not None:
+                    return self.ev(b.value, st)
         return super().get_attr(st, base, attr, node)
 
     def call_method(self, st, obj, name, args, kwargs, node):
@@ -140,6 +149,19 @@ def _m_bytesio(ex, st, args, kwargs, node):
     else:
         raise ops.Unsupported(f"{ex.loc(node)} io.BytesIO of something that is not the stored payload")
     return [(st, ex.new_obj(st, "BytesIO", {"content": content, "pos": VInt(0)}))]
+
+
+def _m_lower(ex, st, args, kwargs, node):
+    if len(args) != 1 or kwargs:
+        raise ops.Unsupported(f"{ex.loc(node)} lower(args)")
+    return [(st, VStr(LOWER(args[0].t)))]
+
+
+def labels_of(m, sch):
+    """A class that stores the picture kind instead of a content type and no pixel size (RtfImage: twips) gets no pixel-size clause."""
+    if m == "get_metadata" and "content_type" not in sch:
+        return LABELS[m][:3]
+    return LABELS[m]
 
 
 def _m_strip(ex, st, args, kwargs, node):
@@ -218,6 +240,9 @@ def specs(cls, sch):
         return c.args["self"].t
 
     def stored_ct(c, item):
+        if isinstance(item, VStr) and "content_type" not in sch and sch.get("image_type") == "str":
+            k = LOWER(fld(cls, "image_type", S)(me(c)))
+            return z3.And([z3.Implies(k == z3.StringVal(a), item.t == z3.StringVal(b)) for a, b in KIND_TABLE.items()])
         if not isinstance(item, VStr) or sch.get("content_type") != "str":
             return z3.BoolVal(False)
         f = fld(cls, "content_type", S)(me(c))
@@ -305,21 +330,24 @@ def run(repo, tier, contracts_of):
         reg.add(_px_view())
         reg.ext_models["io.BytesIO"] = _m_bytesio
         reg.ext_models["str.strip"] = _m_strip
+        reg.ext_models["str.lower"] = _m_lower
         uni = Universe(repo)
     except Exception as e:  # noqa
         return {"obligations": [ground_obligation(f"C14/data_types.py::{cls}.{m}/ensures#{lab}", False, f"not executable: {type(e).__name__}: {e}"[:300],
                                                   DT, kind="ensures", definite=False)
-                                for cls in CLASSES for m in METHODS for lab in LABELS[m]], "functions": []}
+                                for cls in CLASSES for m in METHODS for lab in LABELS[m]
+                                if not (cls == "RtfImage" and lab == LABELS["get_metadata"][3])], "functions": []}
     for cls in CLASSES:
         sch = class_schema(mod, cls) or {}
         sp = specs(cls, sch)
         for m in METHODS:
             qn, base = f"{cls}.{m}", f"C14/data_types.py::{cls}.{m}"
+            labs = labels_of(m, sch) if sch else (LABELS[m][:3] if (cls == "RtfImage" and m == "get_metadata") else LABELS[m])
             try:
                 fn = mod.functions.get(qn)
                 if fn is None:
                     raise ops.Unsupported("the accessor is not defined in the class")
-                c = FnContract(target=f"{DT}::{qn}", params=[("self", p_ext(cls))], ensures=list(zip(LABELS[m], sp[m])), raises=[], total=True,
+                c = FnContract(target=f"{DT}::{qn}", params=[("self", p_ext(cls))], ensures=list(zip(labs, sp[m])), raises=[], total=True,
                                note="observation accessor: what the caller sees is what the extractor stored")
                 ex = AccessExecutor(mod, reg, uni)
                 ex.contract = c
@@ -330,13 +358,13 @@ def run(repo, tier, contracts_of):
                     d = verify.discharge(ob, None, getattr(ex, "witness_terms", {}))
                     d.update(function=f"{DT}::{qn}")
                     ds.append(d)
-                want = {f"{base}/ensures#{lab}" for lab in LABELS[m]}
+                want = {f"{base}/ensures#{lab}" for lab in labs}
                 if not want <= {d["id"] for d in ds}:
                     raise ops.Unsupported("no normal outcome")
                 obls.extend(ds)
                 fns.append(dict(mod.fn_info(qn), obligations=len(ds)))
             except Exception as e:  # noqa -- outside the subset: undecided, the native replay decides
-                for lab in LABELS[m]:
+                for lab in labs:
                     g = ground_obligation(f"{base}/ensures#{lab}", False, f"not executable: {type(e).__name__}: {e}"[:300], DT, kind="ensures", definite=False)
                     g["function"] = f"{DT}::{qn}"
                     obls.append(g)
